@@ -1,6 +1,311 @@
-//! C15 harness commands (stub).
-use std::io::Write;
+//! C15: what the importers build versus what okane's own parser reads back from the printed text.
+//!
+//! `hx c15 import` — one case per line `<csv|xml|txt> <path-enc> <config-yaml-enc> <statement-enc>`:
+//!     real `load_from_yaml` + `ConfigSet::select(path)` + `import::import` -> `Vec<Txn>` -> `to_double_entry`
+//!     -> tree dump of every built transaction, the text exactly as `ImportCmd::run` prints it
+//!     (`DisplayContext` with the configured precisions, `writeln!("{}")` per transaction), and that text
+//!     re-read by the real parser.
+//! `hx c15 txn` — one case per line, an S-expression
+//!     `(txn (d Y M D) <payee> (amt NEG MANT SCALE <commodity>) <src-account> ((<commodity> PREC)...) <op>...)`
+//!     with builder calls `<op>` = `(eff (d Y M D))` `(code s)` `(comment s)` `(dest s)` `(clear u|c|p)`
+//!     `(transferred amt)` `(rate <source> <target> (dec NEG MANT SCALE))` `(balance amt)` `(charge <payee> amt)`
+//!     `(chargeni <payee> amt)`: the `Txn` is built through the public builder methods of `single_entry::Txn`,
+//!     then the same dump as above.
+//! Output (both): `(ok (txns <txn>...) (text <enc>) (reparse (ok <entry>...) | (err <enc>)))`
+//!              | `(err <stage> <kind> <enc message>)` | `(panic <enc message>)`
+use std::collections::HashMap;
+use std::io::{BufRead, Write};
+use std::path::Path;
 
-pub fn run(_args: &[String], _out: &mut dyn Write) -> i32 {
+use okane::import::{self, config, single_entry, Format, ImportError};
+use okane_core::syntax;
+use rust_decimal::Decimal;
+
+use crate::sx::{self, enc};
+use crate::tree;
+
+/// Minimal S-expression reader for case lines (same syntax as lean/Okane/Base/Sexp.lean).
+pub mod sexp {
+    #[derive(Debug, Clone, PartialEq)]
+    pub enum Sx {
+        Atom(String),
+        List(Vec<Sx>),
+    }
+
+    impl Sx {
+        pub fn atom(&self) -> Option<&str> {
+            match self {
+                Sx::Atom(s) => Some(s),
+                _ => None,
+            }
+        }
+        pub fn list(&self) -> Option<&[Sx]> {
+            match self {
+                Sx::List(v) => Some(v),
+                _ => None,
+            }
+        }
+        /// percent-decoded atom
+        pub fn text(&self) -> Option<String> {
+            crate::sx::dec(self.atom()?)
+        }
+        /// `(tag a b c)` -> Some([a, b, c]) when the head is `tag`
+        pub fn tagged(&self, tag: &str) -> Option<&[Sx]> {
+            let l = self.list()?;
+            if l.first()?.atom()? == tag {
+                Some(&l[1..])
+            } else {
+                None
+            }
+        }
+        pub fn head(&self) -> Option<&str> {
+            self.list()?.first()?.atom()
+        }
+        /// `()` -> Some(None), `(x)` -> Some(Some(x))
+        pub fn opt(&self) -> Option<Option<&Sx>> {
+            let l = self.list()?;
+            match l.len() {
+                0 => Some(None),
+                1 => Some(Some(&l[0])),
+                _ => None,
+            }
+        }
+    }
+
+    pub fn parse(s: &str) -> Option<Sx> {
+        let mut stack: Vec<Vec<Sx>> = vec![Vec::new()];
+        let mut cur = String::new();
+        let flush = |cur: &mut String, stack: &mut Vec<Vec<Sx>>| {
+            if !cur.is_empty() {
+                stack.last_mut().unwrap().push(Sx::Atom(std::mem::take(cur)));
+            }
+        };
+        for c in s.chars() {
+            match c {
+                '(' => {
+                    flush(&mut cur, &mut stack);
+                    stack.push(Vec::new());
+                }
+                ')' => {
+                    flush(&mut cur, &mut stack);
+                    let top = stack.pop()?;
+                    stack.last_mut()?.push(Sx::List(top));
+                }
+                ' ' | '\t' | '\n' | '\r' => flush(&mut cur, &mut stack),
+                c => cur.push(c),
+            }
+        }
+        flush(&mut cur, &mut stack);
+        if stack.len() != 1 || stack[0].len() != 1 {
+            return None;
+        }
+        stack.pop()?.pop()
+    }
+}
+
+use sexp::Sx;
+
+pub fn err_kind(e: &ImportError) -> String {
+    let d = format!("{:?}", e);
+    d.split(|c: char| !c.is_alphanumeric()).next().unwrap_or("").to_string()
+}
+
+/// The printed text of `ImportCmd::run` for already built transactions, and the dump of both sides.
+fn dump(built: &[syntax::plain::Transaction], precisions: HashMap<String, u8>) -> String {
+    let ctx = syntax::display::DisplayContext { precisions };
+    let mut text = String::new();
+    for xact in built {
+        use std::fmt::Write as _;
+        writeln!(text, "{}", ctx.as_display(xact)).unwrap();
+    }
+    let trees: Vec<String> = built.iter().map(tree::txn).collect();
+    let reparse = match tree::parse_plain(&text) {
+        Ok(es) => format!("(ok {})", es.iter().map(tree::entry).collect::<Vec<_>>().join(" ")),
+        Err(m) => format!("(err {})", enc(&m)),
+    };
+    format!("(ok (txns {}) (text {}) (reparse {}))", trees.join(" "), enc(&text), reparse)
+}
+
+pub fn select_config(yaml: &str, path: &str) -> Result<config::ConfigEntry, String> {
+    let set = config::load_from_yaml(yaml.as_bytes()).map_err(|e| format!("(err yaml {} {})", err_kind(&e), enc(&format!("{:?}", e))))?;
+    match set.select(Path::new(path)) {
+        Err(e) => Err(format!("(err select {} {})", err_kind(&e), enc(&e.to_string()))),
+        Ok(None) => Err("(err select NoMatch ~)".to_string()),
+        Ok(Some(c)) => Ok(c),
+    }
+}
+
+fn import_case(ws: &[&str]) -> String {
+    if ws.len() != 4 {
+        return "(bad-case)".to_string();
+    }
+    let fmt = match ws[0] {
+        "csv" => Format::Csv,
+        "xml" => Format::IsoCamt053,
+        "txt" => Format::Viseca,
+        _ => return "(bad-case)".to_string(),
+    };
+    let (path, yaml, content) = match (sx::dec(ws[1]), sx::dec(ws[2]), sx::dec_bytes(ws[3])) {
+        (Some(a), Some(b), Some(c)) => (a, b, c),
+        _ => return "(bad-case)".to_string(),
+    };
+    let entry = match select_config(&yaml, &path) {
+        Ok(e) => e,
+        Err(m) => return m,
+    };
+    // ImportCmd decodes the file with the configured encoding; the statement here is UTF-8 bytes and the
+    // generated configurations say UTF-8, so the bytes are handed over as they are.
+    let xacts = match import::import(&content[..], fmt, &entry) {
+        Ok(x) => x,
+        Err(e) => return format!("(err import {} {})", err_kind(&e), enc(&format!("{}: {:?}", e, e))),
+    };
+    let mut built = Vec::new();
+    for x in &xacts {
+        match x.to_double_entry(&entry.account) {
+            Ok(t) => built.push(t),
+            Err(e) => return format!("(err to_double_entry {} {})", err_kind(&e), enc(&e.to_string())),
+        }
+    }
+    let precisions = entry.format.commodity.iter().map(|(k, v)| (k.clone(), v.precision)).collect();
+    dump(&built, precisions)
+}
+
+fn sx_date(s: &Sx) -> Option<chrono::NaiveDate> {
+    let a = s.tagged("d")?;
+    chrono::NaiveDate::from_ymd_opt(a.first()?.atom()?.parse().ok()?, a.get(1)?.atom()?.parse().ok()?, a.get(2)?.atom()?.parse().ok()?)
+}
+
+fn sx_decimal(neg: &Sx, mant: &Sx, scale: &Sx) -> Option<Decimal> {
+    let m: i128 = mant.atom()?.parse().ok()?;
+    let s: u32 = scale.atom()?.parse().ok()?;
+    let mut d = Decimal::try_from_i128_with_scale(m, s).ok()?;
+    d.set_sign_negative(neg.atom()? == "1");
+    Some(d)
+}
+
+/// `(amt NEG MANT SCALE <commodity>)`
+fn sx_amount(s: &Sx) -> Option<(Decimal, String)> {
+    let a = s.tagged("amt")?;
+    Some((sx_decimal(a.first()?, a.get(1)?, a.get(2)?)?, a.get(3)?.text()?))
+}
+
+fn txn_case(line: &str) -> String {
+    let Some(case) = sexp::parse(line) else { return "(bad-case)".to_string() };
+    let Some(args) = case.tagged("txn") else { return "(bad-case)".to_string() };
+    if args.len() < 5 {
+        return "(bad-case)".to_string();
+    }
+    // `OwnedAmount` lives in a private module: obtain a value of that type from the public Viseca parser
+    // and overwrite its public fields.
+    let proto = {
+        let mut p = import::viseca::parser::Parser::new(&b"10.08.20 11.08.20 X EUR 1.00 1.00\n"[..], "CHF".to_string());
+        match p.parse_entry() {
+            Ok(Some(e)) => match e.spent {
+                Some(s) => s,
+                None => return "(err harness NoProto ~)".to_string(),
+            },
+            _ => return "(err harness NoProto ~)".to_string(),
+        }
+    };
+    let mk = |v: (Decimal, String)| {
+        let mut a = proto.clone();
+        a.value = v.0;
+        a.commodity = v.1;
+        a
+    };
+    let (Some(date), Some(payee), Some(amount), Some(src)) = (sx_date(&args[0]), args[1].text(), sx_amount(&args[2]), args[3].text()) else {
+        return "(bad-case)".to_string();
+    };
+    let mut precisions: HashMap<String, u8> = HashMap::new();
+    for p in args[4].list().unwrap_or(&[]) {
+        if let Some([c, n]) = p.list() {
+            if let (Some(c), Some(n)) = (c.text(), n.atom().and_then(|x| x.parse().ok())) {
+                precisions.insert(c, n);
+            }
+        }
+    }
+    let mut txn = single_entry::Txn::new(date, &payee, mk(amount));
+    for op in &args[5..] {
+        let Some(l) = op.list() else { return "(bad-case)".to_string() };
+        let r: Option<Result<(), ImportError>> = (|| {
+            match l.first()?.atom()? {
+                "eff" => {
+                    txn.effective_date(sx_date(l.get(1)?)?);
+                }
+                "code" => {
+                    txn.code(&l.get(1)?.text()?);
+                }
+                "comment" => {
+                    txn.add_comment(l.get(1)?.text()?);
+                }
+                "dest" => {
+                    txn.dest_account(&l.get(1)?.text()?);
+                }
+                "clear" => {
+                    txn.clear_state(match l.get(1)?.atom()? {
+                        "u" => syntax::ClearState::Uncleared,
+                        "c" => syntax::ClearState::Cleared,
+                        "p" => syntax::ClearState::Pending,
+                        _ => return None,
+                    });
+                }
+                "transferred" => {
+                    txn.transferred_amount(mk(sx_amount(l.get(1)?)?));
+                }
+                "balance" => {
+                    txn.balance(mk(sx_amount(l.get(1)?)?));
+                }
+                "charge" => {
+                    txn.add_charge(&l.get(1)?.text()?, mk(sx_amount(l.get(2)?)?));
+                }
+                "chargeni" => {
+                    if let Err(e) = txn.try_add_charge_not_included(&l.get(1)?.text()?, mk(sx_amount(l.get(2)?)?)) {
+                        return Some(Err(e));
+                    }
+                }
+                "rate" => {
+                    let d = l.get(3)?.tagged("dec")?;
+                    let rate = sx_decimal(d.first()?, d.get(1)?, d.get(2)?)?;
+                    let key = single_entry::CommodityPair { source: l.get(1)?.text()?, target: l.get(2)?.text()? };
+                    if let Err(e) = txn.add_rate(key, rate) {
+                        return Some(Err(e));
+                    }
+                }
+                _ => return None,
+            }
+            Some(Ok(()))
+        })();
+        match r {
+            None => return "(bad-case)".to_string(),
+            Some(Err(e)) => return format!("(err builder {} {})", err_kind(&e), enc(&e.to_string())),
+            Some(Ok(())) => (),
+        }
+    }
+    match txn.to_double_entry(&src) {
+        Err(e) => format!("(err to_double_entry {} {})", err_kind(&e), enc(&e.to_string())),
+        Ok(t) => dump(&[t], precisions),
+    }
+}
+
+pub fn run(args: &[String], out: &mut dyn Write) -> i32 {
+    let mode = args.first().map(|s| s.as_str()).unwrap_or("");
+    let stdin = std::io::stdin();
+    for line in stdin.lock().lines() {
+        let line = line.unwrap();
+        let l2 = line.clone();
+        let m2 = mode.to_string();
+        let rec = sx::catch(move || match m2.as_str() {
+            "import" => {
+                let ws: Vec<&str> = l2.split(' ').filter(|w| !w.is_empty()).collect();
+                import_case(&ws)
+            }
+            "txn" => txn_case(&l2),
+            _ => "(bad-mode)".to_string(),
+        });
+        match rec {
+            Ok(r) => writeln!(out, "{}", r).unwrap(),
+            Err(m) => writeln!(out, "(panic {})", enc(&m)).unwrap(),
+        }
+    }
     0
 }
